@@ -18,7 +18,7 @@ def _digest(a):
 
 class Call(object):
     __slots__ = ('seq', 'kind', 'z1', 'z2', 'ref', 'digest', 'args', 'kwds', 'out_shape', 'out_dtype',
-                 'out_finite', 'raised', 'value')
+                 'out_finite', 'raised', 'value', 'finite_mask')
 
 
 class Recorder(object):
@@ -47,7 +47,7 @@ class Recorder(object):
             c.ref = (z,)
             c.digest = _digest(arr)
         c.args, c.kwds = args, kwds
-        c.out_shape = c.out_dtype = c.out_finite = c.value = None
+        c.out_shape = c.out_dtype = c.out_finite = c.value = c.finite_mask = None
         c.raised = None
         self.calls.append(c)
         try:
@@ -59,11 +59,15 @@ class Recorder(object):
             if _is_bicomplex(out):
                 c.out_shape, c.out_dtype = np.shape(out.z1), 'bicomplex'
                 c.out_finite = bool(np.all(np.isfinite(out.z1)) and np.all(np.isfinite(out.z2)))
+                if np.size(out.z1) <= 64:
+                    c.finite_mask = np.isfinite(out.z1) & np.isfinite(out.z2)
             else:
                 o = np.asarray(out)
                 c.out_shape, c.out_dtype = o.shape, str(o.dtype)
                 if o.dtype != object:
                     c.out_finite = bool(np.all(np.isfinite(o)))
+                    if o.size <= 64:
+                        c.finite_mask = np.isfinite(o)
                 if self.keep_values and o.dtype != object:
                     c.value = np.array(o, copy=True)
         except Exception:
